@@ -413,6 +413,141 @@ def runEv (cfg : Cfg) : St → List Ev → Option St
     | some st' => runEv cfg st' es
     | none => none
 
+/-! ## Chunk-level reference semantics (emoji on or off)
+
+`_parse` hands `render` the text in chunks (the text between two matches, a run of literal
+backslashes, an escaped `[tag]`), and `render` passes every chunk through `_emoji_replace` (when
+emoji is on) and `strip_control_codes` separately.  Position-free description of that chunking. -/
+
+inductive CEv where
+  | txt (s : List Char)
+  | tag (t : Tag)
+deriving Repr, DecidableEq
+
+def PEv.toC : PEv → CEv
+  | .text _ s => .txt s
+  | .tag _ t => .tag t
+
+def flushC (acc : List Char) : List CEv := if acc = [] then [] else [CEv.txt acc]
+
+/-- the chunks one match yields (`tagYield` without positions) -/
+def tagChunks (k : Nat) (body : List Char) : List CEv :=
+  if k = 0 then [CEv.tag (mkTag body)]
+  else
+    (if k / 2 = 0 then [] else [CEv.txt (bsl (k / 2))]) ++
+      (if k % 2 = 1 then [CEv.txt ('[' :: body ++ [']'])] else [CEv.tag (mkTag body)])
+
+/-- chunker with the pending plain text made explicit: (chunks emitted, text still pending) -/
+def chunkSt : List Char → List Lx → List CEv × List Char
+  | acc, [] => ([], acc)
+  | acc, Lx.ch c :: r => chunkSt (acc ++ [c]) r
+  | acc, Lx.tag k body :: r =>
+    match chunkSt [] r with
+    | (e, a) => (flushC acc ++ tagChunks k body ++ e, a)
+
+def chunkGo (acc : List Char) (l : List Lx) : List CEv :=
+  (chunkSt acc l).1 ++ flushC (chunkSt acc l).2
+
+/-- the chunks of a markup string: `[(text, tag) for _, text, tag in _parse(markup)]` -/
+def chunks (s : List Char) : List CEv := chunkGo [] (lex s)
+
+def CEv.text : CEv → List Char
+  | .txt s => s
+  | .tag _ => []
+
+def CEv.isTxt : CEv → Bool
+  | .txt _ => true
+  | .tag _ => false
+
+/-- forgetting the chunk boundaries: the events of the chunk -/
+def CEv.evs : CEv → List Ev
+  | .txt s => s.map Ev.chr
+  | .tag t => [Ev.tag t]
+
+/-- the characters of the rendered text (each chunk replaced and stripped on its own), each with
+the styles of the tags open there in opening order — offsets are those of the *replaced* text;
+`none` = a closing tag had nothing to close. -/
+def semC (cfg : Cfg) : List OTag → List CEv → Option (List (Char × List (List Char)))
+  | _, [] => some []
+  | op, .txt s :: r =>
+    match semC cfg op r with
+    | some a => some ((chunkText cfg s).map (fun c => (c, op.reverse.map (·.style))) ++ a)
+    | none => none
+  | op, .tag t :: r =>
+    match classify cfg t with
+    | .opening o => semC cfg (o :: op) r
+    | .closeName n =>
+      (match closeRecent n op with
+        | some op' => semC cfg op' r
+        | none => none)
+    | .closeTop =>
+      (match op with
+        | _ :: op' => semC cfg op' r
+        | [] => none)
+
+/-- the render loop fed with chunks (no positions) -/
+def stepC (cfg : Cfg) (st : St) : CEv → Option St
+  | .txt s => some { st with text := st.text ++ chunkText cfg s }
+  | .tag t => (step cfg st (.tag 0 t)).toOption
+
+def runC (cfg : Cfg) : St → List CEv → Option St
+  | st, [] => some st
+  | st, e :: es =>
+    match stepC cfg st e with
+    | some st' => runC cfg st' es
+    | none => none
+
+/-- no `:name:` with `name` in the emoji table anywhere in the text (between any two colons) -/
+def NoEmojiCode (lookup : List Char → Option (List Char)) (s : List Char) : Prop :=
+  ∀ pre name post, s = pre ++ ':' :: (name ++ ':' :: post) → lookup name = none
+
+/-! ## Glue: `Console.render_str`, `Console.print` of strings (highlighting off)
+
+console.py `render_str` decides from its arguments and the console's defaults whether markup is
+interpreted and whether emoji codes are replaced. -/
+
+/-- `x or (x is None and self._x)` -/
+def triFlag (arg : Option Bool) (dflt : Bool) : Bool :=
+  match arg with
+  | some b => b
+  | none => dflt
+
+structure ConsoleFlags where
+  /-- `Console(emoji=…)` -/
+  emoji : Bool
+  /-- `Console(markup=…)` -/
+  markup : Bool
+
+/-- `Console.render_str(text, emoji=…, markup=…)` with no highlighter: (plain, spans) of the `Text`.
+`cfg.emoji` here is the emoji table itself (`some lookup`); whether it is used is decided here. -/
+def renderStr (cfg : Cfg) (con : ConsoleFlags) (emoji markup : Option Bool) (text : List Char) :
+    Except MErr Rendered :=
+  let cfg' : Cfg := { cfg with emoji := if triFlag emoji con.emoji then cfg.emoji else none }
+  if triFlag markup con.markup then render cfg' text
+  else .ok (chunkText cfg' text, [])
+
+/-- `Text(sep, …).join(texts)` as `Console._collect_renderables` uses it for the strings of one
+`print` call: every joined `Text` has `style == ""` (not `None`), so `join` adds a span with the
+empty style over each piece — the separator included — in front of the piece's own spans. -/
+def joinRendered (sep : List Char) : Nat → Bool → List Rendered → Rendered
+  | _, _, [] => ([], [])
+  | off, first, (p, sp) :: rest =>
+    let sepS := stripControl sep
+    let pre : Rendered := if first || sepS = [] then ([], []) else (sepS, [{ start := off, stop := off + sepS.length, style := [] }])
+    let off' := off + pre.1.length
+    let here : List Span := { start := off', stop := off' + p.length, style := [] } ::
+      sp.map (fun s => { start := off' + s.start, stop := off' + s.stop, style := s.style })
+    match joinRendered sep (off' + p.length) false rest with
+    | (p2, sp2) => (pre.1 ++ p ++ p2, pre.2 ++ here ++ sp2)
+
+/-- `Console.print(*strings, sep=…, emoji=…, markup=…)` up to the `Text` it hands to the renderer
+(`_collect_renderables`, highlighting off, no console style). -/
+def printStrs (cfg : Cfg) (con : ConsoleFlags) (emoji markup : Option Bool) (sep : List Char)
+    (objs : List (List Char)) : Except MErr Rendered :=
+  match objs.mapM (renderStr cfg con emoji markup) with
+  | .ok ts => .ok (joinRendered sep 0 true ts)
+  | .error e => .error e
+
 /-- message of the `MarkupError` -/
 def MErr.message : MErr → String
   | .noMatch pos m => "closing tag '" ++ String.ofList m ++ "' at position " ++ toString pos ++ " doesn't match any open tag"
